@@ -36,8 +36,9 @@ const (
 
 // Write is one observed call of the destination writer.
 type Write struct {
-	S    *smt.Term
-	Kind string // "WriteString" / "Write"
+	S      *smt.Term
+	Kind   string // "WriteString" / "Write"
+	Failed bool
 }
 
 // Failure is an assertion (harness or built-in safety) whose negation was
@@ -50,6 +51,7 @@ type Obligation struct {
 	Where  string
 	Ghost  map[string]Value
 	PathID int
+	Pre    map[string]Value // havocked loop state of the path, if any
 }
 
 type State struct {
